@@ -237,11 +237,15 @@ def check(pid: str, tier: str, seed: int):
                       LG.asset('Cc', None, [LG.step('t', 'or'), LG.step('df', 'defense'), LG.step('dh', 'defense', ttc=LG.TTC_ENABLED)])],
                      [LG.assoc('Rr', 'Aa', 'ra', 'Cc', 'rc')])
         lgen = LG.LangGen(rng, dup_assoc_names=0.3)
-        langs = [L0, L1, L0, L1] + [lgen.gen() for _ in range(5 if tier == 'quick' else 30)]
+        # asset type names that contain the keys of an asset entry ("type", "name")
+        L2 = LG.lang([LG.asset('Prototype', None, [LG.step('t', 'or'), LG.step('df', 'defense')]),
+                      LG.asset('Rename', 'Prototype', [LG.step('u', 'or')])],
+                     [LG.assoc('Extrasx', 'Prototype', 'pa', 'Rename', 'pb')])
+        langs = [L0, L1, L2, L0, L1] + [lgen.gen() for _ in range(5 if tier == 'quick' else 30)]
         n = 150 if tier == 'quick' else 2500
         for i in range(n):
             L = langs[i % len(langs)]
-            m = build_model(impl, rng, L, i % len(langs) < 4)
+            m = build_model(impl, rng, L, i % len(langs) < 5)
             lcf = m.lang_classes_factory
             d = tempfile.mkdtemp(dir=scratch)
             pv, docs = property_violations(impl, m, lcf, d)
